@@ -105,6 +105,13 @@ func genAll(P *Program, only string) ([]*VC, []string) {
 		for _, w := range vc.warnings {
 			fmt.Println("WARNING:", w)
 		}
+		for _, m := range vc.missing {
+			props := m.Props
+			if len(props) == 0 {
+				props = []string{"*"}
+			}
+			vc.obs = append(vc.obs, &Obligation{Name: fn.RelString(fn.Pkg.Pkg) + "/" + m.Name, Class: "contract", Props: props, Func: fn.String(), vc: vc, raw: "(check-sat)\n", errText: m.Why, Clause: m.C})
+		}
 		vcs = append(vcs, vc)
 	}
 	return vcs, errs
@@ -123,6 +130,12 @@ func propClosure(P *Program, prop string) (map[string]bool, map[string]bool) {
 		all := append(append([]*Clause{}, fc.Requires...), fc.Ensures...)
 		for _, cs := range fc.Loops {
 			all = append(all, cs...)
+		}
+		for _, a := range fc.Asserts {
+			all = append(all, a.C)
+		}
+		if fc.Opts["det"] != "" && prop == "C06" {
+			tagged = true
 		}
 		for _, c := range all {
 			for _, p := range c.Props {
@@ -162,6 +175,13 @@ func propClosure(P *Program, prop string) (map[string]bool, map[string]bool) {
 		}
 		for _, b := range fn.Blocks {
 			for _, ins := range b.Instrs {
+				// a closure built here (e.g. a comparator handed to sort) is part
+				// of what the function's proof rests on
+				if mc, ok := ins.(*ssa.MakeClosure); ok {
+					if cf, ok := mc.Fn.(*ssa.Function); ok && P.contracts.Funcs[P.funcKey(cf)] != nil {
+						visit(P.funcKey(cf))
+					}
+				}
 				if ci, ok := ins.(ssa.CallInstruction); ok {
 					var callee *ssa.Function
 					switch v := ci.Common().Value.(type) {
@@ -262,6 +282,16 @@ func cmdCheck(args []string) int {
 		}
 	}
 	obs = append(obs, lemObs...)
+	if (*prop == "C06" || *prop == "C14" || *prop == "") && *only == "" {
+		for _, ob := range P.sweepObligations() {
+			for _, p := range ob.Props {
+				if p == *prop || *prop == "" {
+					obs = append(obs, ob)
+					break
+				}
+			}
+		}
+	}
 	// errors in functions that matter to this property are tool errors
 	var relevantErrs []string
 	for _, e := range errs {
@@ -437,7 +467,11 @@ func writeReplay(path, prop string, r Result, P *Program, repo string) {
 		fmt.Fprintf(&b, "clause: %s %s  (%s:%d)\n", r.Ob.Clause.Kind, r.Ob.Clause.Text, r.Ob.Clause.File, r.Ob.Clause.Line)
 	}
 	fmt.Fprintf(&b, "replay: no-failing-input-found (the solver gave no model that could be replayed)\n")
-	fmt.Fprintf(&b, "--- solver output ---\n%s\n--- query ---\n%s\n", r.Output, r.Ob.Query())
+	if r.Ob.static {
+		fmt.Fprintf(&b, "--- sweep finding ---\n%s\n", r.Output)
+	} else {
+		fmt.Fprintf(&b, "--- solver output ---\n%s\n--- query ---\n%s\n", r.Output, r.Ob.Query())
+	}
 	os.WriteFile(path, []byte(b.String()), 0o644)
 }
 
